@@ -1,10 +1,316 @@
-(** C12 -- proofs about the model of MCSMatcher (model/C12_Model.v). *)
+(** C12 -- proofs about the model of MCSMatcher (model/C12_Model.v): find_common_subgraph / get_mappings
+    (orientation swap, wildcard pruning, the three directions) and the MTG copy, on top of proof/C12_Search.v. *)
 From Coq Require Import List NArith ZArith Bool Arith Lia Permutation.
-From SK Require Import lib.LGraph lib.Mono model.C12_Model.
+From SK Require Import lib.LGraph lib.Mono lib.C12_MonoPw model.C12_Model proof.C12_Search.
 Import ListNotations.
 
+(* ------------------------------------------------------------------ inversion of mappings *)
 Lemma invert_involutive m : invert_mapping (invert_mapping m) = m.
 Proof.
   unfold invert_mapping. rewrite map_map. simpl.
   induction m as [|[a b] r IH]; simpl; [reflexivity|]. now rewrite IH.
+Qed.
+
+Lemma in_invert a b m : In (a, b) (invert_mapping m) <-> In (b, a) m.
+Proof.
+  unfold invert_mapping. rewrite in_map_iff. split.
+  - intros ([x y] & E & I). simpl in E. inversion E; subst. exact I.
+  - intros I. exists (b, a). split; [reflexivity|exact I].
+Qed.
+
+Lemma map_fst_invert m : map fst (invert_mapping m) = map snd m.
+Proof. unfold invert_mapping. rewrite map_map. reflexivity. Qed.
+Lemma map_snd_invert m : map snd (invert_mapping m) = map fst m.
+Proof. unfold invert_mapping. rewrite map_map. reflexivity. Qed.
+Lemma invert_length m : length (invert_mapping m) = length m.
+Proof. apply map_length. Qed.
+
+Lemma map_invert_involutive (l : list mapping) : map invert_mapping (map invert_mapping l) = l.
+Proof. rewrite map_map. rewrite <- (map_id l) at 2. apply map_ext. apply invert_involutive. Qed.
+
+(* ------------------------------------------------------------------ the matchers are symmetric *)
+Lemma attrs_match_sym defs : forall h p, attrs_match defs h p = attrs_match defs p h.
+Proof.
+  induction defs as [|d ds IH]; intros [|a hs] [|b ps]; simpl; try reflexivity.
+  now rewrite N.eqb_sym, IH.
+Qed.
+
+Lemma node_match_sym defs h p : node_match defs h p = node_match defs p h.
+Proof. destruct h as [[? ?]|], p as [[? ?]|]; simpl; auto using attrs_match_sym. Qed.
+
+Lemma edge_match_sym : forall h p, edge_match h p = edge_match p h.
+Proof.
+  induction h as [|hv hs IH]; intros [|pv ps]; simpl; try reflexivity.
+  destruct hv, pv; try reflexivity; [now rewrite Z.eqb_sym, IH|apply IH].
+Qed.
+
+Lemma edge_match_mtg_sym h p : edge_match_mtg h p = edge_match_mtg p h.
+Proof. destruct h as [|[a|] ?], p as [|[b|] ?]; simpl; try reflexivity. apply Z.eqb_sym. Qed.
+
+(* ------------------------------------------------------------------ common_induced is symmetric under inversion *)
+Section Invert.
+Variable nm : option nattr -> option nattr -> bool.
+Variable em : eattr -> eattr -> bool.
+Hypothesis nm_sym : forall a b, nm a b = nm b a.
+Hypothesis em_sym : forall a b, em a b = em b a.
+
+Lemma ci_invert ga gb m : common_induced nm em ga gb m -> common_induced nm em gb ga (invert_mapping m).
+Proof.
+  intros (H1 & H2 & H3 & H4). split; [now rewrite map_fst_invert|]. split; [now rewrite map_snd_invert|]. split.
+  - intros p h I. apply (proj1 (in_invert _ _ _)) in I. destruct (H3 h p I) as (Ha & Hb & Hn). rewrite nm_sym. auto.
+  - intros p h p' h' I I' Hp. apply (proj1 (in_invert _ _ _)) in I. apply (proj1 (in_invert _ _ _)) in I'.
+    assert (Hh : h <> h').
+    { intros ->. apply Hp. pose proof (NoDup_map_fst_eq m (h', p) (h', p') H1 I I' eq_refl) as E. now inversion E. }
+    specialize (H4 h p h' p' I I' Hh).
+    destruct (LGraph.adj ga h h'), (LGraph.adj gb p p'); auto. now rewrite em_sym.
+Qed.
+
+(** what [search_mcs_spec] / [search_all_spec] say, as predicates on (graph a, graph b, result list, size) *)
+Definition MaxSpec (ga gb : graph) (maps : list mapping) (last : nat) : Prop :=
+  (forall m, In m maps -> common_induced nm em ga gb m /\ length m = last) /\
+  (forall m, common_induced nm em ga gb m -> length m <= last) /\
+  (forall m, common_induced nm em ga gb m -> length m = last -> 1 <= last ->
+             exists m', In m' maps /\ Permutation m m') /\
+  (maps = [] <-> last = 0).
+
+Definition AllSpec (ga gb : graph) (maps : list mapping) : Prop :=
+  (forall m, In m maps -> common_induced nm em ga gb m /\ 1 <= length m) /\
+  (forall m, common_induced nm em ga gb m -> 1 <= length m -> exists m', In m' maps /\ Permutation m m').
+
+Lemma perm_invert m m' : Permutation (invert_mapping m) m' -> Permutation m (invert_mapping m').
+Proof.
+  intros P. rewrite <- (invert_involutive m). unfold invert_mapping at 1 3. now apply Permutation_map.
+Qed.
+
+Lemma MaxSpec_invert ga gb maps last : MaxSpec ga gb maps last -> MaxSpec gb ga (map invert_mapping maps) last.
+Proof.
+  intros (S1 & S2 & S3 & S4). split; [|split; [|split]].
+  - intros m I. apply in_map_iff in I. destruct I as (m0 & <- & I0). destruct (S1 m0 I0) as (Hc & Hl).
+    split; [now apply ci_invert|now rewrite invert_length].
+  - intros m Hm. rewrite <- invert_length. apply S2. now apply ci_invert.
+  - intros m Hm Hl H1. destruct (S3 (invert_mapping m) (ci_invert _ _ _ Hm)) as (m' & I' & P); [now rewrite invert_length|exact H1|].
+    exists (invert_mapping m'). split; [now apply in_map|now apply perm_invert].
+  - rewrite <- S4. split; [intros E; now apply map_eq_nil in E|intros ->; reflexivity].
+Qed.
+
+Lemma AllSpec_invert ga gb maps : AllSpec ga gb maps -> AllSpec gb ga (map invert_mapping maps).
+Proof.
+  intros (S1 & S2). split.
+  - intros m I. apply in_map_iff in I. destruct I as (m0 & <- & I0). destruct (S1 m0 I0) as (Hc & Hl).
+    split; [now apply ci_invert|now rewrite invert_length].
+  - intros m Hm Hl. destruct (S2 (invert_mapping m) (ci_invert _ _ _ Hm)) as (m' & I' & P); [now rewrite invert_length|].
+    exists (invert_mapping m'). split; [now apply in_map|now apply perm_invert].
+Qed.
+
+(** a result exists iff some pair of atoms matches *)
+Lemma ci_single ga gb p h : In p (node_ids ga) -> In h (node_ids gb) -> nm (label gb h) (label ga p) = true ->
+  common_induced nm em ga gb [(p, h)].
+Proof.
+  intros Hp Hh Hn. split; [repeat constructor; intros []|]. split; [repeat constructor; intros []|]. split.
+  - intros p0 h0 [E|[]]. inversion E; subst. auto.
+  - intros p0 h0 p1 h1 [E|[]] [E'|[]] Hne. inversion E; inversion E'; subst. now elim Hne.
+Qed.
+
+Lemma ci_pair_matches ga gb m : common_induced nm em ga gb m -> 1 <= length m ->
+  exists p h, In p (node_ids ga) /\ In h (node_ids gb) /\ nm (label gb h) (label ga p) = true.
+Proof.
+  intros (_ & _ & H3 & _) Hl. destruct m as [|[p h] r]; [simpl in Hl; lia|].
+  exists p, h. apply H3. now left.
+Qed.
+
+Lemma MaxSpec_nonempty ga gb maps last : MaxSpec ga gb maps last ->
+  (maps <> [] <-> exists p h, In p (node_ids ga) /\ In h (node_ids gb) /\ nm (label gb h) (label ga p) = true).
+Proof.
+  intros (S1 & S2 & S3 & S4). split.
+  - intros Hne. destruct maps as [|m r]; [now elim Hne|]. destruct (S1 m (or_introl eq_refl)) as (Hc & Hl).
+    apply (ci_pair_matches ga gb m Hc). destruct last; [|lia]. assert (m :: r = []) by (now apply S4). discriminate.
+  - intros (p & h & Hp & Hh & Hn) E. apply S4 in E. pose proof (S2 _ (ci_single ga gb p h Hp Hh Hn)) as Hl. simpl in Hl. lia.
+Qed.
+
+Lemma AllSpec_nonempty ga gb maps : AllSpec ga gb maps ->
+  (maps <> [] <-> exists p h, In p (node_ids ga) /\ In h (node_ids gb) /\ nm (label gb h) (label ga p) = true).
+Proof.
+  intros (S1 & S2). split.
+  - intros Hne. destruct maps as [|m r]; [now elim Hne|]. destruct (S1 m (or_introl eq_refl)) as (Hc & Hl).
+    exact (ci_pair_matches ga gb m Hc Hl).
+  - intros (p & h & Hp & Hh & Hn) E.
+    destruct (S2 _ (ci_single ga gb p h Hp Hh Hn) (le_n 1)) as (m' & I & _). rewrite E in I. destruct I.
+Qed.
+
+End Invert.
+
+(* ------------------------------------------------------------------ _prune_graph keeps node ids distinct *)
+Lemma NoDup_map_fst_filter {V} (f : N * V -> bool) (l : list (N * V)) :
+  NoDup (map fst l) -> NoDup (map fst (filter f l)).
+Proof.
+  induction l as [|a r IH]; simpl; intros H; [constructor|].
+  inversion H as [|? ? Hn Hr]; subst. destruct (f a); simpl; [|auto].
+  constructor; [|auto]. intros I. apply Hn. apply in_map_iff in I. destruct I as (x & E & Ix).
+  apply filter_In in Ix. rewrite <- E. apply in_map. tauto.
+Qed.
+
+Lemma prune_nodup prune wc (g : graph) : NoDup (node_ids g) -> NoDup (node_ids (prune_graph prune wc g)).
+Proof.
+  unfold prune_graph. destruct prune; [|auto]. unfold node_ids, induced_sub. simpl. apply NoDup_map_fst_filter.
+Qed.
+
+(* ------------------------------------------------------------------ _search_subgraphs, either mode, as the predicates *)
+Section Generic.
+Variable nm : option nattr -> option nattr -> bool.
+Variable em : eattr -> eattr -> bool.
+
+Lemma search_MaxSpec pattern host maps last tried :
+  NoDup (node_ids pattern) -> NoDup (node_ids host) ->
+  search_subgraphs nm em pattern host true = (maps, last, tried) -> MaxSpec nm em pattern host maps last.
+Proof. intros Hp Hh E. exact (search_mcs_spec nm em pattern host Hp maps last tried E). Qed.
+
+Lemma search_AllSpec pattern host maps last tried :
+  NoDup (node_ids pattern) -> NoDup (node_ids host) ->
+  search_subgraphs nm em pattern host false = (maps, last, tried) -> AllSpec nm em pattern host maps.
+Proof. intros Hp Hh E. exact (search_all_spec nm em pattern host Hp maps last tried E). Qed.
+
+End Generic.
+
+(* ------------------------------------------------------------------ find_common_subgraph / get_mappings *)
+Lemma directions_inverse (r : result) :
+  get_mappings G2toG1 r = map invert_mapping (get_mappings G1toG2 r) /\
+  get_mappings G1toG2 r = map invert_mapping (get_mappings G2toG1 r).
+Proof.
+  unfold get_mappings. destruct (r_pattern_is_g1 r); split; try reflexivity; now rewrite map_invert_involutive.
+Qed.
+
+Section Matcher.
+Variable defs : list N.
+Variable prune : bool.
+Variable wc : N.
+Variables g1 g2 : graph.
+Hypothesis g1_nodup : NoDup (node_ids g1).
+Hypothesis g2_nodup : NoDup (node_ids g2).
+
+Notation g1u := (prune_graph prune wc g1).
+Notation g2u := (prune_graph prune wc g2).
+Notation nm := (node_match defs).
+
+Lemma fcs_le mcs : (n_nodes g1u <=? n_nodes g2u) = true ->
+  find_common_subgraph defs prune wc g1 g2 mcs =
+  {| r_maps := fst (fst (search_subgraphs nm edge_match g1u g2u mcs));
+     r_last := snd (fst (search_subgraphs nm edge_match g1u g2u mcs));
+     r_tried := snd (search_subgraphs nm edge_match g1u g2u mcs);
+     r_pattern_is_g1 := true |}.
+Proof.
+  intros H. unfold find_common_subgraph, prepare_orientation. rewrite H.
+  destruct (search_subgraphs nm edge_match g1u g2u mcs) as [[maps last] tried]. reflexivity.
+Qed.
+
+Lemma fcs_gt mcs : (n_nodes g1u <=? n_nodes g2u) = false ->
+  find_common_subgraph defs prune wc g1 g2 mcs =
+  {| r_maps := fst (fst (search_subgraphs nm edge_match g2u g1u mcs));
+     r_last := snd (fst (search_subgraphs nm edge_match g2u g1u mcs));
+     r_tried := snd (search_subgraphs nm edge_match g2u g1u mcs);
+     r_pattern_is_g1 := false |}.
+Proof.
+  intros H. unfold find_common_subgraph, prepare_orientation. rewrite H.
+  destruct (search_subgraphs nm edge_match g2u g1u mcs) as [[maps last] tried]. reflexivity.
+Qed.
+
+Lemma triple_eta {X Y Z} (t : X * Y * Z) : t = (fst (fst t), snd (fst t), snd t).
+Proof. destruct t as [[? ?] ?]. reflexivity. Qed.
+
+(** maximum mode, both directions *)
+Theorem fcs_maximum :
+  MaxSpec nm edge_match g1u g2u (get_mappings G1toG2 (find_common_subgraph defs prune wc g1 g2 true))
+          (r_last (find_common_subgraph defs prune wc g1 g2 true)) /\
+  MaxSpec nm edge_match g2u g1u (get_mappings G2toG1 (find_common_subgraph defs prune wc g1 g2 true))
+          (r_last (find_common_subgraph defs prune wc g1 g2 true)).
+Proof.
+  pose proof (prune_nodup prune wc g1 g1_nodup) as N1. pose proof (prune_nodup prune wc g2 g2_nodup) as N2.
+  destruct (n_nodes g1u <=? n_nodes g2u) eqn:Eo.
+  - rewrite (fcs_le true Eo). unfold get_mappings. simpl.
+    pose proof (search_MaxSpec nm edge_match g1u g2u _ _ _ N1 N2 (triple_eta _)) as S.
+    split; [exact S|]. apply MaxSpec_invert; [apply node_match_sym|apply edge_match_sym|exact S].
+  - rewrite (fcs_gt true Eo). unfold get_mappings. simpl.
+    pose proof (search_MaxSpec nm edge_match g2u g1u _ _ _ N2 N1 (triple_eta _)) as S.
+    split; [|exact S]. apply MaxSpec_invert; [apply node_match_sym|apply edge_match_sym|exact S].
+Qed.
+
+(** all-sizes mode, both directions *)
+Theorem fcs_all :
+  AllSpec nm edge_match g1u g2u (get_mappings G1toG2 (find_common_subgraph defs prune wc g1 g2 false)) /\
+  AllSpec nm edge_match g2u g1u (get_mappings G2toG1 (find_common_subgraph defs prune wc g1 g2 false)).
+Proof.
+  pose proof (prune_nodup prune wc g1 g1_nodup) as N1. pose proof (prune_nodup prune wc g2 g2_nodup) as N2.
+  destruct (n_nodes g1u <=? n_nodes g2u) eqn:Eo.
+  - rewrite (fcs_le false Eo). unfold get_mappings. simpl.
+    pose proof (search_AllSpec nm edge_match g1u g2u _ _ _ N1 N2 (triple_eta _)) as S.
+    split; [exact S|]. apply AllSpec_invert; [apply node_match_sym|apply edge_match_sym|exact S].
+  - rewrite (fcs_gt false Eo). unfold get_mappings. simpl.
+    pose proof (search_AllSpec nm edge_match g2u g1u _ _ _ N2 N1 (triple_eta _)) as S.
+    split; [|exact S]. apply AllSpec_invert; [apply node_match_sym|apply edge_match_sym|exact S].
+Qed.
+
+(** validity in either mode, all three directions *)
+Theorem fcs_valid mcs m :
+  (In m (get_mappings G1toG2 (find_common_subgraph defs prune wc g1 g2 mcs)) ->
+     common_induced nm edge_match g1u g2u m /\ 1 <= length m) /\
+  (In m (get_mappings G2toG1 (find_common_subgraph defs prune wc g1 g2 mcs)) ->
+     common_induced nm edge_match g2u g1u m /\ 1 <= length m) /\
+  (In m (get_mappings PatternToHost (find_common_subgraph defs prune wc g1 g2 mcs)) ->
+     if r_pattern_is_g1 (find_common_subgraph defs prune wc g1 g2 mcs)
+     then common_induced nm edge_match g1u g2u m else common_induced nm edge_match g2u g1u m).
+Proof.
+  assert (G : forall ga gb maps last, MaxSpec nm edge_match ga gb maps last ->
+              forall m, In m maps -> common_induced nm edge_match ga gb m /\ 1 <= length m).
+  { intros ga gb maps last (S1 & _ & _ & S4) m0 I. destruct (S1 m0 I) as (Hc & Hl). split; [exact Hc|].
+    destruct last; [|lia]. assert (maps = []) by (now apply S4). subst. destruct I. }
+  destruct mcs.
+  - destruct fcs_maximum as (S12 & S21). split; [apply (G _ _ _ _ S12)|]. split; [apply (G _ _ _ _ S21)|].
+    unfold get_mappings in *. destruct (r_pattern_is_g1 (find_common_subgraph defs prune wc g1 g2 true)).
+    + intros I. now apply (G _ _ _ _ S12).
+    + intros I. now apply (G _ _ _ _ S21).
+  - destruct fcs_all as ((A12 & _) & (A21 & _)). split; [apply A12|]. split; [apply A21|].
+    unfold get_mappings in *. destruct (r_pattern_is_g1 (find_common_subgraph defs prune wc g1 g2 false)).
+    + intros I. now apply A12.
+    + intros I. now apply A21.
+Qed.
+
+Theorem fcs_nonempty_iff mcs :
+  get_mappings G1toG2 (find_common_subgraph defs prune wc g1 g2 mcs) <> [] <->
+  exists p h, In p (node_ids g1u) /\ In h (node_ids g2u) /\ nm (label g2u h) (label g1u p) = true.
+Proof.
+  destruct mcs.
+  - exact (MaxSpec_nonempty nm edge_match _ _ _ _ (proj1 fcs_maximum)).
+  - exact (AllSpec_nonempty nm edge_match _ _ _ (proj1 fcs_all)).
+Qed.
+
+End Matcher.
+
+(** the orientation swap: with graphs of different size, calling the matcher with the arguments exchanged runs the
+    very same search, and the two direction requests exchange their answers *)
+Theorem orientation_swap defs prune wc (g1 g2 : graph) mcs :
+  n_nodes (prune_graph prune wc g1) <> n_nodes (prune_graph prune wc g2) ->
+  get_mappings G1toG2 (find_common_subgraph defs prune wc g1 g2 mcs) =
+  get_mappings G2toG1 (find_common_subgraph defs prune wc g2 g1 mcs) /\
+  r_last (find_common_subgraph defs prune wc g1 g2 mcs) = r_last (find_common_subgraph defs prune wc g2 g1 mcs) /\
+  r_pattern_is_g1 (find_common_subgraph defs prune wc g1 g2 mcs) =
+  negb (r_pattern_is_g1 (find_common_subgraph defs prune wc g2 g1 mcs)).
+Proof.
+  intros Hne.
+  destruct (n_nodes (prune_graph prune wc g1) <=? n_nodes (prune_graph prune wc g2)) eqn:E12.
+  - assert (E21 : (n_nodes (prune_graph prune wc g2) <=? n_nodes (prune_graph prune wc g1)) = false).
+    { apply Nat.leb_le in E12. apply Nat.leb_gt. lia. }
+    rewrite (fcs_le defs prune wc g1 g2 mcs E12), (fcs_gt defs prune wc g2 g1 mcs E21). repeat split; reflexivity.
+  - assert (E21 : (n_nodes (prune_graph prune wc g2) <=? n_nodes (prune_graph prune wc g1)) = true).
+    { apply Nat.leb_gt in E12. apply Nat.leb_le. lia. }
+    rewrite (fcs_gt defs prune wc g1 g2 mcs E12), (fcs_le defs prune wc g2 g1 mcs E21). repeat split; reflexivity.
+Qed.
+
+(** the MTG copy (no orientation swap, no pruning, its own edge matcher) *)
+Theorem mtg_spec defs (g1 g2 : graph) : NoDup (node_ids g1) -> NoDup (node_ids g2) ->
+  MaxSpec (node_match defs) edge_match_mtg g1 g2
+          (fst (fst (find_common_subgraph_mtg defs g1 g2 true))) (snd (fst (find_common_subgraph_mtg defs g1 g2 true))) /\
+  AllSpec (node_match defs) edge_match_mtg g1 g2 (fst (fst (find_common_subgraph_mtg defs g1 g2 false))).
+Proof.
+  intros N1 N2. unfold find_common_subgraph_mtg. split.
+  - exact (search_MaxSpec _ _ g1 g2 _ _ _ N1 N2 (triple_eta _)).
+  - exact (search_AllSpec _ _ g1 g2 _ _ _ N1 N2 (triple_eta _)).
 Qed.
